@@ -111,6 +111,7 @@ structure Inv (st : St) : Prop where
     ∃ e, w.res[r]? = some e ∧ HL oi ow st.types id (ρ e.base)
   rm : ∀ b s, lookup st.resourceMap b = some s →
     ∃ x, st.types.resources[s]? = some x ∧ x.alias = none
+  inj : ∀ b b' s, lookup st.resourceMap b = some s → lookup st.resourceMap b' = some s → b = b'
 
 variable {w ρ oi ow c}
 
@@ -129,7 +130,7 @@ theorem RK.mono {st st' : St} {e : WEnt} {k : ItemKind} (h : RK w ρ oi ow c st 
 /-- the invariant survives a step that keeps cache and resource map and extends the arenas -/
 theorem Inv.step {st st' : St} (h : Inv w ρ oi ow c st) (hf : Frame st st')
     (hcache : st'.cache = st.cache) (hrm : st'.resourceMap = st.resourceMap) : Inv w ρ oi ow c st' := by
-  refine ⟨Nat.le_trans h.hc hf.size, ?_, ?_, ?_, ?_, ?_, ?_, ?_⟩
+  refine ⟨Nat.le_trans h.hc hf.size, ?_, ?_, ?_, ?_, ?_, ?_, ?_, by rw [hrm]; exact h.inj⟩
   · intro d v hl; rw [hcache] at hl; exact (h.defined d v hl).mono hf
   · intro f id hl; rw [hcache] at hl; exact (h.func f id hl).mono hf
   · intro i id hl; rw [hcache] at hl; exact (h.inst i id hl).mono hf
